@@ -264,11 +264,25 @@ where
         rset.buf_positions.clear();
         let mut is_new = true;
 
+        // If an error occurs while the set is being filled, the set is emptied: the offsets
+        // found so far would not refer to the bytes it contains.
+        macro_rules! try_or_clear {
+            ($expr: expr) => {
+                match $expr {
+                    Ok(item) => item,
+                    Err(e) => {
+                        rset.buf_positions.clear();
+                        return Some(Err(e));
+                    }
+                }
+            };
+        }
+
         while self.state != State::Finished {
             if let Some(pos) = self.incomplete_pos.take() {
                 // resume incomplete search after previous read_record_set(), or
                 // after a seek() call.
-                if !try_opt!(self.resume_incomplete_search(pos, is_new)) {
+                if !try_or_clear!(self.resume_incomplete_search(pos, is_new)) {
                     // end of input: records found before (exact number requested) are returned
                     if rset.buf_positions.is_empty() {
                         return None;
@@ -278,7 +292,7 @@ where
             } else {
                 // search the next complete record after `next()`, or in
                 // later iterations of this loop
-                if !try_opt!(self.search()) {
+                if !try_or_clear!(self.search()) {
                     // At least one record must be present. If not, continue
                     // with `resume_incomplete_search()` in next iteration
                     if rset.buf_positions.is_empty() {
